@@ -786,7 +786,11 @@ func (g *generator) start(vmCall func(*vm, int), nArgs int) {
 	entered = true
 }
 
-func (g *generator) enterNextFinallyFrame() (canContinue bool) {
+// enterNextFinallyFrame unwinds the try frames of the suspended generator for return(): it closes the pending
+// iterators and enters the next finally block (canContinue). A non-nil ex is an exception thrown by an
+// iterator's return() that no handler inside the generator catches; the VM has then been unwound to the frame
+// set up by enterNext().
+func (g *generator) enterNextFinallyFrame() (canContinue bool, ex *Exception) {
 	vm := g.vm
 	callStackLen := len(vm.callStack)
 
@@ -795,10 +799,12 @@ func (g *generator) enterNextFinallyFrame() (canContinue bool) {
 		if int(tf.callStackLen) != callStackLen { // have we breached the function boundary?
 			break
 		}
-		ex := vm.restoreStacks(tf.iterLen, tf.refLen)
-		if ex != nil {
-			vm.throw(ex)
-			return true
+		if ex1 := vm.restoreStacks(tf.iterLen, tf.refLen); ex1 != nil {
+			// it replaces the pending return completion and is thrown at the point of suspension
+			if ex = vm.handleThrow(ex1); ex != nil {
+				return false, ex
+			}
+			return true, nil
 		}
 		// closing the iterators may have grown (reallocated) the try stack: tf must be re-read, otherwise
 		// the updates below are lost and the finally block falls through to the code after the try statement
@@ -814,7 +820,7 @@ func (g *generator) enterNextFinallyFrame() (canContinue bool) {
 			tf.catchPos = -1
 			tf.finallyPos = -1
 			tf.finallyRet = -2 // -1 would cause it to continue after leaveFinally
-			return true
+			return true, nil
 		}
 		vm.popTryFrame()
 	}
@@ -863,7 +869,10 @@ func (g *generator) step() (res Value, resultType resultType, ex *Exception) {
 			}
 
 			if vm.prg != nil && vm.pc == -2 { // normal exit from finally
-				if g.enterNextFinallyFrame() {
+				if canContinue, ex1 := g.enterNextFinallyFrame(); ex1 != nil {
+					ex = ex1
+					return
+				} else if canContinue {
 					continue
 				}
 
@@ -1108,7 +1117,16 @@ func (g *generatorObject) _return(v Value) Value {
 	g.gen.returning = v
 	g.state = genStateExecuting
 	g.gen.enterNext()
-	canContinue := g.gen.enterNextFinallyFrame()
+	canContinue, ex := g.gen.enterNextFinallyFrame()
+	if ex != nil {
+		// an iterator's return() threw while the suspended loops were closed and nothing inside the
+		// generator caught it: the generator is completed and the exception goes to the caller
+		vm := g.gen.vm
+		g.gen.returning = nil
+		vm.popTryFrame()
+		vm.popCtx()
+		return g.step(nil, resultNormal, ex)
+	}
 	if !canContinue {
 		vm := g.gen.vm
 		g.state = genStateCompleted
